@@ -1,6 +1,6 @@
 (* Pinned statements of C10 (generated once by tools/mkpins.py from coq/props/C10.v, then committed). *)
 From DV Require Import Model.Base Model.NameCheck Model.Parser Model.Header Model.Readers Model.Uncompress
-  Model.Mutate Spec.PlainSpec Proofs.Hoare Proofs.HeaderBits Proofs.InsertLemmas Proofs.PlainWf Proofs.InsertFail props.C10.
+  Model.Mutate Spec.PlainSpec Proofs.Hoare Proofs.HeaderBits Proofs.InsertLemmas Proofs.PlainWf Proofs.InsertFail Proofs.InsertSpec Proofs.HeaderInv props.C10.
 Check (C10_insert_bound : forall sec rr s s',
   m_insert_rr sec rr s = (s', Ok tt) -> (N.of_nat (length (pp_packet (fst s'))) <= 8192)%N).
 Print Assumptions C10_insert_bound.
@@ -18,3 +18,9 @@ Check (C10_failed_insert_keeps_message : forall p v sec rr it s' e, bytes_ok p -
     map plain_record lxa' = map plain_record lxa /\ map plain_record lxn' = map plain_record lxn /\
     map plain_record lxr' = map plain_record lxr).
 Print Assumptions C10_failed_insert_keeps_message.
+Check (C10_failed_insert_keeps_invariant : forall p v it sec rr s' e, bytes_ok p -> parse p = Ok v ->
+  m_insert_rr sec rr (v, it) = (s', Err e) ->
+  exists dv, s' = (dv, it) /\ dinv dv /\ uncompress p = Ok (pp_packet dv)).
+Print Assumptions C10_failed_insert_keeps_invariant.
+Check (C10_failed_insert_changes_nothing : forall v it sec rr s' e, dinv v -> m_insert_rr sec rr (v, it) = (s', Err e) -> s' = (v, it)).
+Print Assumptions C10_failed_insert_changes_nothing.
